@@ -387,7 +387,12 @@ fn run_program(input: &Sx) -> String {
                         if h == "many" {
                             c.with_many(mk_trigger(&a[0]), a[1..].iter().map(mk_extractor).collect::<Vec<_>>());
                         } else {
-                            c.with(mk_trigger(&a[0]), mk_extractor(&a[1]));
+                            // the identity-lens rules go through `with_auto` (also the way `with_common` registers)
+                            match a[1].atom() {
+                                Some("xid") => { c.with_auto::<X>(mk_trigger(&a[0])); }
+                                Some("iterid") => { c.with_auto::<Iterations>(mk_trigger(&a[0])); }
+                                _ => { c.with(mk_trigger(&a[0]), mk_extractor(&a[1])); }
+                            }
                         }
                     }
                     Ok(())
@@ -476,6 +481,9 @@ impl ConfigUser for LogRun {
                             (N_ITER, "idlens") => { c.with(t, IdLens::<Iterations>::entry()); }
                             (N_EVAL, "valueof") => { c.with(t, ValueOf::<Evaluations>::entry()); }
                             (N_EVAL, "idlens") => { c.with_auto::<Evaluations>(t); }
+                            (N_EVAL, "common") => { c.with_common(t); }
+                            (N_PROG, "common-2nd") => {}
+                            (N_ITER, "auto") => { c.with_auto::<Iterations>(t); }
                             (N_PROG, _) => { c.with_auto::<Progress<ValueOf<Iterations>>>(t); }
                             ("BestObjectiveValue", _) => { c.with(t, BestObjectiveValueLens::<P>::entry()); }
                             ("PopulationSize", _) => { c.with(t, PopulationSizeLens::<P>::entry()); }
@@ -998,6 +1006,12 @@ fn main() {
             format!("(r (every {k2}) PopulationSize lens)"),
             format!("(r (every {k3}) c15::X idlens)"),
             format!("(r (every {k2}) {N_ITER} idlens)"),
+            format!("(r (every {k3}) {N_EVAL} idlens)"),
+            format!("(r (every {k2}) {N_EVAL} common)"),
+            format!("(r (every {k2}) {N_PROG} common-2nd)"),
+            format!("(r (every {k3}) {N_EVAL} common)"),
+            format!("(r (every {k3}) {N_PROG} common-2nd)"),
+            format!("(r (every {k1}) {N_ITER} auto)"),
         ])
     };
     let variants: Vec<u32> = if a.thorough { (0..N_VARIANTS).collect() } else { vec![(a.seed % N_VARIANTS as u64) as u32, ((a.seed + 1) % N_VARIANTS as u64) as u32] };
